@@ -9,10 +9,6 @@ the real bytes by the content matrix of the harness. -/
 namespace Gomjml.Props.C04
 open Gomjml.Layout Gomjml.Spec
 
-/-- **never only inside an Outlook-only comment**: on the tame fragment no content token sits in an Outlook conditional -/
-theorem C04_visible_partial (bs : List Block) (h : Tame bs false) : Visible ((render bs).map Tok.toG) :=
-  (wf_spec _ (C02_C03_tame bs h)).2.2
-
 /-- **exactly once**, for EVERY document (no side condition): the skeleton contains as many content tokens as the document
     has content slots — nothing is dropped, nothing duplicated, whatever the flags and the nesting -/
 theorem C04_once (bs : List Block) : cnt (render bs) = (bs.map Block.slots).sum := content_count bs
@@ -24,11 +20,6 @@ example : cnt (render [.section ⟨false, true, false, false, false, false, [.co
 /-- **never only inside an Outlook-only comment — the full statement, for EVERY document of the layout grammar**: no content
     token sits in an Outlook conditional, whatever the wrappers contain.  No side condition. -/
 theorem C04_visible_full (bs : List Block) : Visible ((render bs).map Tok.toG) := (std_spec_all bs).2
-
-/-- **never only inside an Outlook-only comment, for every body whose wrappers are tame** (older, weaker form): the class `content-in-mso` (raw
-    content after a section that left the comment open) is repaired in body.go -/
-theorem C04_visible_all_bodies (bs : List Block) (hw : WrappersTame bs) : Visible ((render bs).map Tok.toG) :=
-  (wf_spec _ (C02_C03_all bs hw)).2.2
 
 /-- the formerly failing shape: raw content between two sections is visible now -/
 example : Visible ((render [.section ⟨false, false, false, false, false, false, []⟩, .raw false,
